@@ -85,15 +85,25 @@ def run(repo, rep):
                     break
             if not hit:
                 rep.undecided('R-FORMULA', base + 'iteration', wl, 'no loop-carried variable follows the sigma iteration')
+            # ... and the quantities the iteration starts from, where the routine keeps them under their textbook names (Eq. 88 - 90)
+            envl = ev.last_env or {}
+            for nm_, ref_, txt_ in (('u1', u1, 'reduced latitude u1 = atan((1 - f) tan(lat1)) (Eq. 88), for every latitude - both poles included'),
+                                    ('sigma1', sigma1, 'sigma1 = atan2(tan u1, cos az) (Eq. 89)')):
+                if isinstance(envl.get(nm_), Rat):
+                    check_equal(rep, 'R-FORMULA', base + 'setup::' + nm_, w, envl[nm_], ref_, txt_)
         return
     rep.holds('R-FORMULA', base + 'iteration', wl, '%s <- s/(bA) + delta_sigma(B, %s, cos(2 sigma1 + %s)) (nested form of eq. 96)' % (S, S, S))
     check_equal(rep, 'R-FORMULA', base + 'sigma0', wl, L.entry.get(S), sigma0, 'initial sigma = s/(b A) with u1, alpha, u^2, A from the call\'s ellipsoid')
     if M is None:
-        rep.undecided('R-FORMULA', base + 'two_sigma_m', wl, 'no carried variable equals 2 sigma1 + sigma')
-        return
-    rep.holds('R-FORMULA', base + 'two_sigma_m', wl, '%s <- 2 sigma1 + %s' % (M, S))
+        # no variable of the loop carries 2 sigma_m out of it (the update may live in a nested function whose assignment is local): the
+        # final formulas (Eq. 98 - 102) need 2 sigma_m = 2 sigma1 + sigma at the CONVERGED sigma - they are compared with exactly that
+        rep.holds('R-FORMULA', base + 'two_sigma_m', wl, 'no carried variable holds 2 sigma1 + %s: the result formulas are compared with 2 sigma1 + the converged %s' % (S, S), work=False)
+        tsm_final = C(2) * sigma1 + Rat.sym('%s@L%d' % (S, L.index))
+    else:
+        rep.holds('R-FORMULA', base + 'two_sigma_m', wl, '%s <- 2 sigma1 + %s' % (M, S))
+        tsm_final = Rat.sym('%s@L%d' % (M, L.index))
     fin = orc.call('direct_finish', lon1=Rat.sym('lon1'), az_deg=Rat.sym('az'), u1=u1, alpha=alpha,
-                   sigma=Rat.sym('%s@L%d' % (S, L.index)), tsm=Rat.sym('%s@L%d' % (M, L.index)), f=fl)
+                   sigma=Rat.sym('%s@L%d' % (S, L.index)), tsm=tsm_final, f=fl)
     names = ['lat2', 'lon2', 'azimuth2to1']
     texts = ['lat2 = atan2(sin u1 cos s + cos u1 sin s cos az, (1-f) sqrt(sin^2 alpha + (...)^2))',
              'lon2 = lon1 + degrees(lambda - (1-C) f sin alpha (sigma + C sin sigma (cos 2sm + C cos sigma (-1 + 2 cos^2 2sm))))',
